@@ -1035,10 +1035,6 @@ class experiment:
 
     def __exit__(self, exc_type, exc_value, traceback):
         logger.debug("Exiting scheduler context")
-        # If no exception and normal run mode, remove old "jobs"
-        if self.workspace.run_mode == RunMode.NORMAL:
-            if exc_type is None and self.jobsbakpath.is_dir():
-                rmtree(self.jobsbakpath)
 
         # Close the different locks
         try:
@@ -1051,6 +1047,12 @@ class experiment:
                 )
             else:
                 self.wait()
+
+                # The plan has completed (no exception, no failed job):
+                # in normal run mode, remove old "jobs"
+                if self.workspace.run_mode == RunMode.NORMAL:
+                    if self.jobsbakpath.is_dir():
+                        rmtree(self.jobsbakpath)
         finally:
             SIGNAL_HANDLER.remove(self)
 
